@@ -70,7 +70,8 @@ def gen_histories(rep, rd, n, only_hash=False):
     rep.add_tlc(stats_of(res))
     # histories around the one operation that edits its target (IoContract.simplify()) on contracts stored unsimplified
     return ([{"focus": False, "hist": h} for h in hs] + fs + simulate(rep, rd, "Session_hash.cfg", n // 2, 32, "hash")
-            + simulate(rep, rd, "Session_terms.cfg", n // 2, 32, "terms"))     # the term-level API on lists whose coefficients can cancel
+            + simulate(rep, rd, "Session_terms.cfg", n // 2, 32, "terms")
+            + simulate(rep, rd, "Session_twins.cfg", n // 2, 36, "twins"))      # values that print alike     # the term-level API on lists whose coefficients can cancel
 
 
 def run_case(case):
